@@ -84,7 +84,7 @@ Definition api_step (p : proto) (s : dstate) (op : aop) : dstate * cls :=
   | ASendBlocked k =>
     let '(s1, o1) := step s UWrite in
     match o1 with
-    | OOk => (fst (step (fst (step s1 (XCtx k))) GWatch), CEof)   (* io.ErrClosedPipe -> io.EOF *)
+    | OOk => (fst (step (fst (step s1 (XCtx k))) GWatchCtx), CEof)   (* io.ErrClosedPipe -> io.EOF *)
     | _ => (s1, cls_of o1)
     end
   | ACloseReq => let '(s1, o) := step s UCloseWrite in (s1, cls_of o)
@@ -125,7 +125,7 @@ Definition api_step (p : proto) (s : dstate) (op : aop) : dstate * cls :=
   | ACancel k => (fst (step s (XCtx k)), CNone)
   | AGateDo r => (fst (step s (GDo r)), CNone)
   | AGateReady => (fst (step s GReady), CNone)
-  | AWatch => (fst (step s GWatch), CNone)
+  | AWatch => (fst (step s GWatchCtx), CNone)
   | ABodyClosed => (fst (step s XReqBodyClosed), CNone)
   end.
 
@@ -144,7 +144,7 @@ Definition events_of (p : proto) (s : dstate) (op : aop) : list ev :=
     | _ => [UWrite]
     end
   | ASendBlocked k =>
-    match snd (step s UWrite) with OOk => [UWrite; XCtx k; GWatch] | _ => [UWrite] end
+    match snd (step s UWrite) with OOk => [UWrite; XCtx k; GWatchCtx] | _ => [UWrite] end
   | ACloseReq => [UCloseWrite]
   | ARecv i =>
     if negb (ready s) then []
@@ -174,12 +174,12 @@ Definition events_of (p : proto) (s : dstate) (op : aop) : list ev :=
   | ACancel k => [XCtx k]
   | AGateDo r => [GDo r]
   | AGateReady => [GReady]
-  | AWatch => [GWatch]
+  | AWatch => [GWatchCtx]
   | ABodyClosed => [XReqBodyClosed]
   end.
 
 Ltac crush_state s :=
-  destruct s as [st rt rd de hr pr pw bc cx];
+  destruct s as [st wt rt rd de hr pr pw bc cx];
   cbn in *.
 
 Lemma api_refines : forall p s op, fst (api_step p s op) = fst (run s (events_of p s op)).
@@ -188,7 +188,8 @@ Proof.
   destruct op as [mid|k| |i|k|rest|k|r| | |]; cbn.
   - destruct cx as [k0|]; cbn; [reflexivity|]. destruct pr; cbn; [reflexivity|]. destruct pw; cbn; [reflexivity|].
     destruct mid as [k|]; cbn; reflexivity.
-  - destruct cx as [k0|]; cbn; [reflexivity|]. destruct pr; cbn; [reflexivity|]. destruct pw; cbn; reflexivity.
+  - destruct cx as [k0|]; cbn; [reflexivity|]. destruct pr; cbn; [reflexivity|]. destruct pw; cbn; [reflexivity|].
+    destruct st, wt; cbn; reflexivity.
   - reflexivity.
   - destruct rd; cbn; [|reflexivity]. destruct de as [x|]; cbn; [reflexivity|].
     destruct cx as [k0|]; cbn; [reflexivity|]. destruct hr; cbn; [|reflexivity].
@@ -200,7 +201,7 @@ Proof.
   - destruct st; cbn; [|reflexivity]. destruct rt; cbn; [reflexivity|].
     destruct r as [e|[e|] b1]; cbn; try reflexivity; try (destruct b1; reflexivity).
   - destruct rt; cbn; [|reflexivity]. destruct rd; reflexivity.
-  - destruct cx; reflexivity.
+  - destruct wt; cbn; [destruct cx; reflexivity|reflexivity].
   - reflexivity.
 Qed.
 
@@ -342,7 +343,7 @@ Proof.
       destruct D as [-> | ->]; auto.
     + auto.
   - destruct rt; cbn; [|auto]. destruct rd; cbn; auto.
-  - destruct D as [-> | ->]; cbn; auto.
+  - destruct wt; cbn; [|auto]. destruct D as [-> | ->]; cbn; auto.
   - auto.
 Qed.
 
@@ -379,7 +380,7 @@ Lemma cancel_entry_lemma : forall p k s,
      snd (api_step p s (ASendBlocked k)) = CEof).
 Proof.
   intros p k s C D. unfold cancelled. crush_state s. subst. repeat split; intros; subst; cbn; auto;
-  destruct k; cbn; auto.
+  destruct k; cbn; auto; destruct st, wt; cbn; auto.
 Qed.
 
 (* a handler returning its context's error reports the same classification *)
